@@ -296,9 +296,12 @@ func (i *Interpreter) Define(clauseText string) error {
 	if err != nil {
 		return fmt.Errorf("parsing failed: %v", err)
 	}
+	// A definition that is rejected must leave the state as it was.
+	saved := i.saveState()
 	i.resetInteractiveDefs(buffer)
 	programInfo, err := analysis.AnalyzeOneUnit(unit, i.knownPredicates)
 	if err != nil {
+		i.restoreState(saved)
 		return fmt.Errorf("analysis failed: %v", err)
 	}
 	i.pushSourceFragment(interactivePath, []parse.SourceUnit{unit}, programInfo)
@@ -306,6 +309,7 @@ func (i *Interpreter) Define(clauseText string) error {
 	// let the user control when to evaluate rules.
 	err = i.evalProgram(programInfo)
 	if err != nil {
+		i.restoreState(saved)
 		return fmt.Errorf("evaluation failed: %v", err)
 	}
 	var preds []ast.PredicateSym
@@ -464,6 +468,45 @@ func (i *Interpreter) popSourceFragment() *sourceFragment {
 	i.temporalStore = f.temporalCheckpoint
 	i.updateCombinedStore()
 	return f
+}
+
+// interpreterState is what Define, Load and Pop change. The stores of a saved
+// state are never written to by later fragments, which only add layers on top.
+type interpreterState struct {
+	simpleStore     factstore.FactStoreWithRemove
+	temporalStore   factstore.TemporalFactStore
+	src             []string
+	sourceFragments map[string]*sourceFragment
+	knownPredicates map[ast.PredicateSym]ast.Decl
+	buffer          string
+}
+
+func (i *Interpreter) saveState() interpreterState {
+	s := interpreterState{
+		simpleStore:     i.simpleStore,
+		temporalStore:   i.temporalStore,
+		src:             append([]string(nil), i.src...),
+		sourceFragments: make(map[string]*sourceFragment, len(i.sourceFragments)),
+		knownPredicates: make(map[ast.PredicateSym]ast.Decl, len(i.knownPredicates)),
+		buffer:          i.buffer,
+	}
+	for path, f := range i.sourceFragments {
+		s.sourceFragments[path] = f
+	}
+	for sym, decl := range i.knownPredicates {
+		s.knownPredicates[sym] = decl
+	}
+	return s
+}
+
+func (i *Interpreter) restoreState(s interpreterState) {
+	i.simpleStore = s.simpleStore
+	i.temporalStore = s.temporalStore
+	i.src = s.src
+	i.sourceFragments = s.sourceFragments
+	i.knownPredicates = s.knownPredicates
+	i.buffer = s.buffer
+	i.updateCombinedStore()
 }
 
 func (i *Interpreter) hasInteractiveDefs() bool {
